@@ -55,6 +55,9 @@ theorem normalize_spec (s : List Char) :
         .ok { len := utf8Len (normSpec s), buf := encode (normSpec s) ++ List.replicate (64 - utf8Len (normSpec s)) 0 }
       else .err .exceededBuffer := normalizeAlg_eq s
 
+/-- the model's fused loop is the source's `for c in NormalizedIter::new(val)` loop over `NormalizedIter::next` -/
+theorem normalize_loop_as_written (s : List Char) : normalizeAlgIter s = normalizeAlg s := normalizeAlgIter_eq s
+
 /-- … and is idempotent: normalising the normal form changes nothing -/
 theorem normalize_idempotent (s : List Char) : normalizeAlg (normSpec s) = normalizeAlg s ∧ normSpec (normSpec s) = normSpec s :=
   ⟨normalize_idem s, normSpec_idem s⟩
